@@ -11,6 +11,15 @@ From EV Require Import Base.Bytes Base.Codec Model.Tx Model.Block Proofs.Tx Proo
 Import ListNotations.
 Open Scope N_scope.
 
+(* The constants of the model are those of the source now (Gen/Tables.v is regenerated from /repo/src on every run). *)
+From EV Require Gen.Tables Proofs.TablesTie.
+Theorem C01_constants_from_source :
+  Tables.c01_pegin_bit_enc = bit30 /\ Tables.c01_pegin_bit_dec = bit30 /\ Tables.c01_issuance_bit_enc = Tx.bit31 /\ Tables.c01_issuance_bit_dec = Tx.bit31
+  /\ Tables.c01_coinbase_vout = u32max /\ Tables.c01_header_dyna_bit_enc = Block.bit31 /\ Tables.c01_header_dyna_shift_dec = 31
+  /\ params_tag PNull = Tables.c01_params_tag_null /\ (forall s l e, params_tag (PCompact s l e) = Tables.c01_params_tag_compact)
+  /\ (forall f, params_tag (PFull f) = Tables.c01_params_tag_full).
+Proof. repeat split; reflexivity. Qed.
+
 Section C01.
 Variable pt_ok : bytes -> bool.
 Variables maxvec cap_txin cap_txout cap_vecu8 cap_tx : N.
